@@ -882,6 +882,8 @@ func (c *c01CountReader) Read(p []byte) (int, error) {
 	return n, err
 }
 
+var c01ListVar bt.Txs
+
 // c01SegReader is a caller's reader over a source that arrives in segments (a
 // socket buffer, a ring buffer): Read never crosses a segment boundary, and -
 // like many such types - it has a Len method, which reports what is buffered
@@ -1506,7 +1508,34 @@ func c01JudgeList(c *mon.Ctx, in *c01Bytes, b []byte) {
 		var txs bt.Txs
 		var n int64
 		var err error
-		if !c.Try(entry, func() { n, err = txs.ReadFrom(r) }) {
+		if chunk == 11 {
+			// one list variable that lives as long as the process receives list after list; the
+			// caller keeps the previous result (the slice it read before), which must stay what it was
+			kept := c01ListVar
+			keptBytes := make([][]byte, len(kept))
+			for i, t := range kept {
+				if t != nil {
+					mon.TryQuiet(func() { keptBytes[i] = t.ExtendedBytes() })
+				}
+			}
+			ok := c.Try(entry, func() { n, err = c01ListVar.ReadFrom(r) })
+			for i, t := range kept {
+				var now []byte
+				if t != nil {
+					mon.TryQuiet(func() { now = t.ExtendedBytes() })
+				}
+				if !bytes.Equal(now, keptBytes[i]) {
+					c.Violationf("C01:earlier-list-changed-by-a-later-read", "transaction %d of the list read before into the same bt.Txs variable changed when the next list was read: was %s, now %s", i, clip(keptBytes[i]), clip(now))
+					break
+				}
+			}
+			c.Count("list:read-into-a-reused-variable")
+			if !ok {
+				okAll = false
+				continue
+			}
+			txs = c01ListVar
+		} else if !c.Try(entry, func() { n, err = txs.ReadFrom(r) }) {
 			okAll = false
 			continue
 		}
